@@ -462,13 +462,66 @@ def _run(ctx, shape, prog, blen, vbits, distinct, frag):
                 ctx.prove(differ, "harness-enabled-sets", None)
         return True
 
+    def make_handles():
+        """A handle for every scope of the shape whose parent fields are
+        already defined: kept, and asked again after later definitions."""
+        for spec in shape:
+            req = tuple(spec[1])
+            if not req or req in handles:
+                continue
+            try:
+                anc = [ancestor(req[:i] if i else (), p) if False else
+                       ancestor(req, p) for i, (p, k) in enumerate(req)]
+            except AssertionError:
+                continue
+            h = call(bf, {p: vals[k] for p, k in req},
+                     [(g, vals[k]) for g, (p, k) in zip(anc, req)])
+            if h is None:
+                return False
+            handles[req] = h
+        ctx.witness("handles-kept")
+        return True
+
+    def query_handles():
+        """get_mask() of every retained handle: the union of the bits of
+        the fields enabled under the handle's own values, now."""
+        for req, h in sorted(handles.items(), key=lambda kv: len(kv[0])):
+            en = []
+            for f in fields:
+                cond = sand(*[sor(*[vals[k] == vals[kk] for q, kk in req
+                                    if q == p] or [False])
+                              for p, k in f.req])
+                if cond is False:
+                    continue
+                en.append((f, cond))
+            if any(f.s is None or f.l is None for f, c in en):
+                continue
+            try:
+                m = h.get_mask()
+            except Exception as e:
+                ctx.observe("handle mask", len(req), type(e).__name__)
+                ctx.prove(False, "get-value-failed", repr(e))
+                return False
+            ctx.observe("handle mask", len(req), m)
+            want = 0
+            for f, c in en:
+                want = want | ite(c, _bits(f.s, f.l), 0)
+            ctx.prove(m == want, "mask-not-union",
+                      ("retained handle", len(req), m, want))
+        return True
+
     # -- the history ---------------------------------------------------
     assigned_since_define = False
     for step in prog:
-        if step == "A":
+        if step == "H":
+            if not make_handles():
+                return
+        elif step == "A":
             if not assign():
                 return
             assigned_since_define = True
+            if not query_handles():
+                return
             if not readback_all():
                 return
         elif step == "V":
@@ -602,6 +655,8 @@ def order(shape, which):
         return tuple(idx) + ("A", "V", "V", "A")
     if which == "PCA":        # parents, values, layout; children, values,
         return tuple(top) + ("V", "A") + tuple(rest) + ("V", "V", "A")
+    if which == "PHCA":       # as PCA with a handle per scope made early
+        return tuple(top) + ("V", "H", "A") + tuple(rest) + ("V", "V", "A")
     if which == "DVDVA":      # values given between the definitions
         return tuple(top) + ("V",) + tuple(rest) + ("V", "V", "A")
     raise ValueError(which)
@@ -641,6 +696,11 @@ def units(tier, seed):
     # ---- child of child --------------------------------------------------
     add("chain auto", chain(), "DVA", 8, w=FAIL, split=4)
     add("chain auto", chain(), "DVDVA", 8, w=FAIL, split=4)
+    # handles on the scopes made before their fields exist, asked for their
+    # mask before and after the later definitions
+    add("siblings auto", siblings(), "PHCA", 8, w=("handles-kept",), split=4)
+    add("reuse auto", reuse(), "PHCA", 8, distinct=R, w=("handles-kept",),
+        split=4)
     add("chain tags", chain(tags=("t",), extra=True), "DVA", 12,
         w=("tag-mask",), split=4)
     # ---- tags whose propagation must pass an already tagged ancestor --
